@@ -69,6 +69,10 @@ func c13Abs(c *Case) {
 		e = xref.Group{X: e}
 	case 1:
 		e = xref.Path{Start: xref.Group{X: e}, Steps: []*xref.Step{g.FreeStep(env.Names)}}
+	case 2: // ... continued by '//'
+		if st := g.FreeStep(env.Names); st.Seq == nil && st.Abbrev != "//" {
+			e = xref.Path{Start: xref.Group{X: e}, Steps: []*xref.Step{xgen.DSlash(), st}}
+		}
 	}
 	if c.expensive(e, d) {
 		return
@@ -238,6 +242,31 @@ func c13Wrap(c *Case) {
 			dd["abort"] = fmt.Sprint(got.Panic.String(), got.Budget)
 			c.Violation("WRAPPING-CHANGES-NODE-SET", dd)
 			return
+		}
+	}
+	// (P) keeps the node-set of P also when the path goes on: (P)/q and (P)//q select what q selects from the nodes of P
+	if c.Index%3 == 0 {
+		q := g.FreeStep(env.Names)
+		if q.Seq == nil && q.Abbrev != "//" {
+			for _, steps := range [][]*xref.Step{{q}, {xgen.DSlash(), q}} {
+				w := xref.Path{Start: grp, Steps: steps}
+				if c.expensive(w, d) {
+					continue
+				}
+				wantW, okW, _ := refNodeSet(w, xref.NewCtx(ctx))
+				if !okW {
+					continue
+				}
+				wsrc := xref.Render(w)
+				wce := c.compile(wsrc, det)
+				if wce == nil {
+					return
+				}
+				c.Count("identity:continued")
+				if _, good := c.checkSelectSet(wce, wsrc, ctx, wantW); !good {
+					return
+				}
+			}
 		}
 	}
 	truth := len(want) > 0
